@@ -158,6 +158,7 @@ func (db *DB) Open() (err error) {
 }
 
 func (db *DB) Close() error {
+	var rotateErr error
 	err := func() error {
 		db.rwLock.Lock()
 		defer db.rwLock.Unlock()
@@ -172,10 +173,9 @@ func (db *DB) Close() error {
 
 		db.closed = true
 
-		err := db.rotateWalAndFlushMemstore()
-		if err != nil {
-			return err
-		}
+		// a failed rotation is reported, but the shutdown carries on: nothing could release the goroutines, the WAL and
+		// the tables afterwards (a second Close answers ErrAlreadyClosed)
+		rotateErr = db.rotateWalAndFlushMemstore()
 
 		close(db.storeFlushChannel)
 		<-db.doneFlushChannel
@@ -193,7 +193,7 @@ func (db *DB) Close() error {
 		<-db.doneCompactionChannel
 	}
 
-	return errors.Join(db.wal.Close(), db.sstableManager.currentSSTable().Close())
+	return errors.Join(rotateErr, db.wal.Close(), db.sstableManager.currentSSTable().Close())
 }
 
 func (db *DB) Get(key string) (string, error) {
